@@ -212,15 +212,34 @@ pub fn run_level_a(env: &Env, rep: &Report) {
     par_generated(rep, "engine-random", random_matrix, env.tier.pick(150_000, 4_000_000), workers(), check_matrix);
 }
 
+/// Level B: Sort / BatchSort histories, every call checked against the shadow.
+pub fn check_tracker(h: &crate::gen::scenes::History) -> CaseResult {
+    let st = crate::props::decide::run_decisions(h)?;
+    Ok(CaseOk::new(st.greedy_suboptimal_calls > 0 || st.near_gate_calls > 0)
+        .label(h.cfg.kind.name())
+        .label_if(st.greedy_suboptimal_calls > 0, "greedy_suboptimal_call")
+        .label_if(st.near_gate_calls > 0, "near_gate_call")
+        .label_if(st.band_calls > 0, "band_call")
+        .label_if(st.positional_attachments > 0, "has_continuations")
+        .label_if(matches!(h.cfg.pos, crate::trk::Pos::Maha), "mahalanobis"))
+}
+
 pub fn run(env: &Env, rep: &Report) {
-    rep.set_rule("level A: SortVoting::winners on weight matrices - exhaustive for <=3 detections x <=3 tracks over a grid straddling the threshold, random up to 8x8 with shuffled arrival order, IoU-like and Mahalanobis-like weights; oracle: subset-DP optimum with 'unmatched = threshold'. Non-trivial: the optimum beats row-order or best-first greedy, or a weight lies within 0.05 of the gate; distinct = distinct serialized case");
+    rep.set_rule("level A: SortVoting::winners on weight matrices - exhaustive for <=3 detections x <=3 tracks over a grid straddling the threshold, random up to 8x8 with shuffled arrival order, IoU-like and Mahalanobis-like weights; oracle: subset-DP optimum with 'unmatched = threshold'. Level B: Sort / BatchSort histories (crowds, crossings, duplicates, drop-outs), every call checked against the f64 shadow: continuations are gated pairs of live unexpired tracks of the scene and their total equals the DP optimum. Non-trivial: the optimum beats row-order or best-first greedy, or a weight lies within 0.05 of the gate; distinct = distinct serialized case");
     rep.assume("integerisation at 1e-6 and f32 scaling: totals compared within rows*(2e-6 + 4e-7*max|w|)");
     run_level_a(env, rep);
+    rep.assume("level B: weights recomputed in f64 from the observable pre-call state (last posterior box, raw Kalman state) - IoU x max(conf, min_conf) kept when >= threshold, or (100 - d^2)/conf inside the chi-square gate and bounding-circle reach; calls with a decision within 1e-4 of a threshold are counted as band and not asserted");
+    let pool = IsoPool::new(&env.prop, "tracker", std::time::Duration::from_secs(120));
+    let n = env.tier.pick(1_000, 30_000);
+    for kind in [crate::trk::Kind::Sort, crate::trk::Kind::BatchSort] {
+        par_generated(rep, "tracker", move || crate::gen::scenes::history(kind, false, 40), n, workers(), crate::props::c01::iso_check(&pool, rep));
+    }
 }
 
 pub fn replay(sub: &str, case: Value) -> Option<CaseResult> {
     match sub {
         "engine-exhaustive" | "engine-random" => Some(replay_case(case, check_matrix, sub)),
+        "tracker" => Some(replay_case(case, check_tracker, sub)),
         _ => None,
     }
 }
